@@ -151,6 +151,10 @@ def _handle_ConnectionUp (event):
   if _hold_down:
     t = Timer(core.openflow_discovery.send_cycle_time + 1, _update_tree,
               kw={'force_dpid':event.dpid})
+  elif not _noflood_by_default:
+    # A reconnecting switch may still have the NO_FLOOD bits we set earlier,
+    # and no link event need follow (e.g., its links are gone).
+    _update_tree()
 
 
 def _handle_LinkEvent (event):
